@@ -134,7 +134,7 @@ func runW2Model(r *Result, dp *DriverPool, cs w2Case) bool {
 // ring-level selection) computes the stream from the call history alone; it must equal the real writer's output
 // with the default match finder, call by call and byte for byte.
 func runW2Auto(r *Result, dp *DriverPool, cs w2Case) {
-	if cs.Matcher != 0 || cs.DictCap > 8192 {
+	if cs.DictCap > 8192 {
 		return // the Lean state is copied once per proposal (immutable arrays): small dictionaries only
 	}
 	tot := 0
@@ -143,7 +143,7 @@ func runW2Auto(r *Result, dp *DriverPool, cs w2Case) {
 			tot += len(cs.data(op))
 		}
 	}
-	if tot > 40000 {
+	if tot > 40000 || (cs.Matcher == 1 && tot > 12000) {
 		return
 	}
 	var buf bytes.Buffer
@@ -173,7 +173,7 @@ func runW2Auto(r *Result, dp *DriverPool, cs w2Case) {
 			break
 		}
 	}
-	rep, err := dp.Ask(fmt.Sprintf("w2auto %d %d %d %s", (cs.PB*5+cs.LP)*9+cs.LC, cs.DictCap, cs.BufSize, strings.Join(calls, " ")))
+	rep, err := dp.Ask(fmt.Sprintf("w2auto %d %d %d %d %s", cs.Matcher, (cs.PB*5+cs.LP)*9+cs.LC, cs.DictCap, cs.BufSize, strings.Join(calls, " ")))
 	if err != nil {
 		r.Violate("broken-correspondence", "driver", cs, err.Error())
 		return
@@ -186,7 +186,7 @@ func runW2Auto(r *Result, dp *DriverPool, cs w2Case) {
 	r.mu.Lock()
 	r.TracesVsImpl++
 	r.mu.Unlock()
-	r.Inc("writer2_auto_histories")
+	r.Inc(fmt.Sprintf("writer2_auto_histories_matcher%d", cs.Matcher))
 	r.Add("writer2_auto_bytes", total)
 	mCalls := strings.Fields(parts[0])
 	for i := range goCalls {
@@ -195,7 +195,7 @@ func runW2Auto(r *Result, dp *DriverPool, cs w2Case) {
 			if i < len(mCalls) {
 				got = mCalls[i]
 			}
-			r.Violate("broken-correspondence", "writer2-auto call result (Lean HashTable4 model)", cs,
+			r.Violate("broken-correspondence", fmt.Sprintf("writer2-auto call result (Lean match finder model %d)", cs.Matcher), cs,
 				fmt.Sprintf("call %d: real Writer2 (HashTable4) returned %s, the Lean model computing its own proposals says %s", i, goCalls[i], got))
 			return
 		}
@@ -206,7 +206,7 @@ func runW2Auto(r *Result, dp *DriverPool, cs w2Case) {
 		for pos < len(m) && pos < buf.Len() && m[pos] == buf.Bytes()[pos] {
 			pos++
 		}
-		r.Violate("broken-correspondence", "writer2-auto sink bytes (Lean HashTable4 model)", cs,
+		r.Violate("broken-correspondence", fmt.Sprintf("writer2-auto sink bytes (Lean match finder model %d)", cs.Matcher), cs,
 			fmt.Sprintf("the Lean model of Writer2 with its own HashTable4 model produces different bytes (first difference at %d of %d; model %d bytes)", pos, buf.Len(), len(m)))
 	}
 }
